@@ -981,6 +981,26 @@ size_t get_option_count()
 
 
 //-----------------------------------------------------------------------------
+// Converts one part of the version number of a 'using' line:
+// a decimal number that fits into the 10 bits option_level() reserves for it
+static bool read_version_part(const char *in, int &out)
+{
+   char       *c;
+   const long val = std::strtol(in, &c, 10);
+
+   if (  c == in
+      || *c != 0
+      || val < 0
+      || val > 1023)
+   {
+      return(false);
+   }
+   out = static_cast<int>(val);
+   return(true);
+}
+
+
+//-----------------------------------------------------------------------------
 void process_option_line(const std::string &config_line, const char *filename,
                          int &compat_level)
 {
@@ -1107,16 +1127,18 @@ void process_option_line(const std::string &config_line, const char *filename,
    else if (cmd == "using")
    {
       auto vargs = split_args(args[1], filename, is_varg_sep);
+      int  major = 0;
+      int  minor = 0;
+      int  patch = 0;
 
-      if (vargs.size() == 2)
+      if (  (  vargs.size() == 2
+            || vargs.size() == 3)
+         && read_version_part(vargs[0].c_str(), major)
+         && read_version_part(vargs[1].c_str(), minor)
+         && (  vargs.size() == 2
+            || read_version_part(vargs[2].c_str(), patch)))
       {
-         compat_level = option_level(std::stoi(vargs[0]), std::stoi(vargs[1]));
-      }
-      else if (vargs.size() == 3)
-      {
-         compat_level = option_level(std::stoi(vargs[0]),
-                                     std::stoi(vargs[1]),
-                                     std::stoi(vargs[2]));
+         compat_level = option_level(major, minor, patch);
       }
       else
       {
